@@ -12,7 +12,8 @@ import time
 
 VERIF = os.path.dirname(os.path.dirname(os.path.abspath(__file__)))
 REPO = os.environ.get("VERIF_REPO", "/repo")
-CACHE = os.path.join(VERIF, ".cache")
+OUT = os.environ.get("VERIF_OUT", VERIF)   # where evidence/ and replays/ are written (default: /verif itself)
+CACHE = os.path.join(OUT, ".cache") if OUT != VERIF else os.path.join(VERIF, ".cache")
 NCPU = int(os.environ.get("VERIF_JOBS", str(os.cpu_count() or 8)))
 
 COMMON = ["-std=gnu++20", "-I" + os.path.join(REPO, "include"), "-I" + VERIF, "-DJOHNMCFARLANE_CNL_VERIF",
@@ -357,7 +358,7 @@ class Result:
             else:
                 new.append(v)
         self.nontrivial = sum(self.per_kernel_nontrivial.values())
-        os.makedirs(os.path.join(VERIF, "replays"), exist_ok=True)
+        os.makedirs(os.path.join(OUT, "replays"), exist_ok=True)
         os.makedirs(os.path.join(CACHE, "logs"), exist_ok=True)
         with open(os.path.join(CACHE, "logs", "%s-violations.json" % self.prop), "w") as f:
             json.dump([{k: v[k] for k in v if k != "binary"} for v in self.violations], f, indent=1)
@@ -369,7 +370,7 @@ class Result:
                 continue
             seen.add(key)
             hid = hashlib.sha256(("%s|%s|%s|%s" % (self.prop, v["kernel"], v["cls"], v["config"])).encode()).hexdigest()[:12]
-            path = os.path.join(VERIF, "replays", "%s-%s.json" % (self.prop, hid))
+            path = os.path.join(OUT, "replays", "%s-%s.json" % (self.prop, hid))
             with open(path, "w") as f:
                 json.dump({"property": self.prop, "tier": self.tier, "seed": self.seed, "config": v["config"], "kernel": v["kernel"],
                            "class": v["cls"], "count": v["count"], "witnesses": v["witnesses"], "trap_site": v.get("site"),
@@ -403,8 +404,8 @@ class Result:
               "assumptions": list(assumptions), "wall_s": round(time.time() - self.t0, 2), "violations": len(new)}
         if self.evaluations < 1 or self.nontrivial < min_nontrivial:
             self.inconclusive.append("monitor observed too little: evaluations=%d distinct_nontrivial=%d" % (self.evaluations, self.nontrivial))
-        os.makedirs(os.path.join(VERIF, "evidence"), exist_ok=True)
-        with open(os.path.join(VERIF, "evidence", "%s.json" % self.prop), "w") as f:
+        os.makedirs(os.path.join(OUT, "evidence"), exist_ok=True)
+        with open(os.path.join(OUT, "evidence", "%s.json" % self.prop), "w") as f:
             json.dump(ev, f, indent=1)
         for l in lines:
             print(l)
